@@ -13,7 +13,8 @@ Line-protocol driver for the keeper-level C01 stream (`settleapp`, stateful; one
 `settle` / `fillbids` / `fillasks` go through the request's `ValidateBasic` and then the msg server,
 as `runTx` does; their id lists may be empty, contain 0, or name an order more than once.
 
-The verdict is attached to `dump` lines: the C01 conclusion (`acceptedViolation` / `rejectedViolation`)
+The verdict is attached to `dump` lines: the C01 conclusion (`acceptedViolation`, then
+`partialLastViolation` on the id lists in the request's order / `rejectedViolation`)
 evaluated on the implementation's dump before and after the preceding message.
 -/
 import PvModel.SettleKeeper
@@ -164,6 +165,14 @@ def messageIds (ws : List String) : List Nat :=
   | "fillasks" :: _ :: rest => ((kv rest "ids").bind parseIds).getD []
   | _ => []
 
+/-- the id lists of a message as the request gives them (`partialLastViolation`) -/
+def messageLists (ws : List String) : List (List Nat) :=
+  match ws with
+  | "settle" :: rest => [((kv rest "asks").bind parseIds).getD [], ((kv rest "bids").bind parseIds).getD []]
+  | "fillbids" :: _ :: rest => [((kv rest "ids").bind parseIds).getD []]
+  | "fillasks" :: _ :: rest => [((kv rest "ids").bind parseIds).getD []]
+  | _ => []
+
 def isMessage (ws : List String) : Bool :=
   match ws with
   | "settle" :: _ => true | "fillbids" :: _ => true | "fillasks" :: _ => true | _ => false
@@ -180,7 +189,8 @@ def appStep (st : AppSt) (op : String) (impl : Option String) : AppSt × String 
         | some (mws, accepted), some before =>
           -- the property quantifies over single-denom markets with the fee ratio in the price denom
           if accepted then
-            match acceptedViolation st.k.ratio st.k.splitOf (messageIds mws) (virtualOrder mws before) before d with
+            match (acceptedViolation st.k.ratio st.k.splitOf (messageIds mws) (virtualOrder mws before) before d).orElse
+                fun _ => partialLastViolation (messageLists mws) before d with
             | none => "ok"
             | some c => "fail:" ++ c
           else match rejectedViolation before d with
